@@ -1517,6 +1517,26 @@ func (data *Data) CloneMetaNodes() []NodeInfo {
 	return mns
 }
 
+// CloneReplicaGroups returns a copy of the replica groups of every database.
+func (data *Data) CloneReplicaGroups() map[string][]ReplicaGroup {
+	if data.ReplicaGroups == nil {
+		return nil
+	}
+	rgs := make(map[string][]ReplicaGroup, len(data.ReplicaGroups))
+	for db, groups := range data.ReplicaGroups {
+		cloned := make([]ReplicaGroup, len(groups))
+		for i := range groups {
+			cloned[i] = groups[i]
+			if groups[i].Peers != nil {
+				cloned[i].Peers = make([]Peer, len(groups[i].Peers))
+				copy(cloned[i].Peers, groups[i].Peers)
+			}
+		}
+		rgs[db] = cloned
+	}
+	return rgs
+}
+
 func (data *Data) CloneQueryIDInit() map[SQLHost]uint64 {
 	if data.QueryIDInit == nil {
 		return nil
@@ -2977,6 +2997,8 @@ func (data *Data) Clone() *Data {
 	// Copy nodes.
 	other.DataNodes = data.CloneDataNodes()
 	other.MetaNodes = data.CloneMetaNodes()
+	other.SqlNodes = data.CloneSqlNodes()
+	other.ReplicaGroups = data.CloneReplicaGroups()
 
 	other.Databases = data.CloneDatabases()
 	other.Streams = data.CloneStreams()
